@@ -31,25 +31,30 @@ func dist(p, q geom.Point) float64 {
 // minDist computes the square of the distance from a point to a rectangle.
 // If the point is contained in the rectangle then the distance is zero.
 //
+// Every product is converted explicitly to float64 before it is added: the
+// conversion forbids the compiler to fuse x*y + z into a single FMA (as it
+// does on arm64, ppc64le, s390x and riscv64), which would round minDist and
+// minMaxDist differently and break minDist(p, r) <= minMaxDist(p, r).
+//
 // Implemented per Definition 2 of "Nearest Neighbor Queries" by
 // N. Roussopoulos, S. Kelley and F. Vincent, ACM SIGMOD, pages 71-79, 1995.
 func minDist(p geom.Point, r *geom.Bounds) float64 {
 	sum := 0.0
 	if p.X < r.Min.X {
 		d := p.X - r.Min.X
-		sum += d * d
+		sum += float64(d * d)
 	} else if p.X > r.Max.X {
 		d := p.X - r.Max.X
-		sum += d * d
+		sum += float64(d * d)
 	} else {
 		sum += 0
 	}
 	if p.Y < r.Min.Y {
 		d := p.Y - r.Min.Y
-		sum += d * d
+		sum += float64(d * d)
 	} else if p.Y > r.Max.Y {
 		d := p.Y - r.Max.Y
-		sum += d * d
+		sum += float64(d * d)
 	} else {
 		sum += 0
 	}
@@ -101,13 +106,13 @@ func minMaxDist(p geom.Point, r *geom.Bounds) float64 {
 	min := math.MaxFloat64
 	d1 := p.X - rmX()
 	d2 := p.Y - rMY()
-	d := d1*d1 + d2*d2
+	d := float64(d1*d1) + float64(d2*d2)
 	if d < min {
 		min = d
 	}
 	d1 = p.Y - rmY()
 	d2 = p.X - rMX()
-	d = d1*d1 + d2*d2
+	d = float64(d1*d1) + float64(d2*d2)
 	if d < min {
 		min = d
 	}
